@@ -4,7 +4,7 @@ import json, os, shutil, subprocess, concurrent.futures as cf
 from .. import core
 
 PROOF = "Props/C01.v"
-RUN_FILES = ["Run/SemCoreRun.v", "Run/SemModRun.v", "Run/InstRun.v"]
+RUN_FILES = ["Run/SemCoreRun.v", "Run/SemModRun.v", "Run/InstRun.v", "Run/BulkRun.v"]
 CORR_NAME = "input and output binaries executed side by side by node's WebAssembly engine (an interpreter/compiler that does not link walrus)"
 ASSUMPTIONS = [
     "Model/Sem.v is an abstract big-step semantics of structured operator forests, parametric in the semantics of the individual operators; the equivalence theorem assumes that an operator's semantics is invariant under the consistent renumbering of indices (the interface to the WebAssembly semantics) and that return/unreachable never fall through",
@@ -177,6 +177,8 @@ def inst_correspondence(ctx, thorough, search):
             return "CROk [%s]" % "; ".join(t[1:] for t in body.split(",")) if body else "CROk []"
         return "CRTrap" if v["r"].startswith("trap:") else None
     lines, ids, ov, kinds, ncalls, skipped = [], [], [], {}, 0, 0
+    for gv in idx.get("oracle_violations", []):
+        ov.append({"class": gv["class"], "what": gv["what"], "input": {"module_hex": gv.get("input")}, "replay_cmd": "walrus::Module::from_buffer(<module_hex>), optionally passes::gc::run, emit_wasm; decode the output"})
     for c in idx["cases"]:
         x = by.get(c["id"])
         if x is None:
@@ -238,6 +240,105 @@ def inst_correspondence(ctx, thorough, search):
     return dis, ov, cov
 
 
+def bulk_correspondence(ctx, thorough, search):
+    """bulk-memory operators and passive data segments (Model/SemBulk.v): generated modules with memory.init / data.drop / memory.copy / memory.fill
+    sequences; node instantiates the input and walrus's output (half after GC) and calls every export on a fresh instance; the Coq model is run (a) on
+    the input module and (b) on walrus's OUTPUT BINARY decoded back by the harness (functions reordered, segments deleted and renumbered, operators renamed)"""
+    out = os.path.join(ctx.work, ("search" if search else "corr") + "_bulk")
+    shutil.rmtree(out, ignore_errors=True)
+    n = 400 if thorough else 40
+    rc, o, dt = core.sh([core.vh(), "c01bulk", out, str(ctx.seed + (80 if search else 0)), str(n)], timeout=1200)
+    if rc != 0:
+        return [{"error": "bulk generator failed", "out": o[-600:]}], [], {}
+    idx = json.load(open(os.path.join(out, "index.json")))
+    r = subprocess.run(["node", os.path.join(core.VERIF, "js", "runbulk.mjs"), out], capture_output=True, text=True, timeout=1800)
+    if r.returncode != 0 or not r.stdout.strip():
+        return [{"error": "node failed on the bulk-memory cases", "out": r.stderr[-600:]}], [], {}
+    by = {x["id"]: x for x in json.loads(r.stdout)["results"]}
+
+    def res(v):
+        if v["r"].startswith("ok:"):
+            body = v["r"][3:]
+            return "CROk [%s]" % "; ".join(t[1:] for t in body.split(",")) if body else "CROk []"
+        return "CRTrap" if v["r"].startswith("trap:") else None
+    ov, kinds, ncalls, skipped = [], {}, 0, 0
+    lines = {"in": [], "out": []}
+    for gv in idx.get("oracle_violations", []):
+        ov.append({"class": gv["class"], "what": gv["what"], "input": {"module_hex": gv.get("input")}, "replay_cmd": "walrus::Module::from_buffer(<module_hex>), optionally passes::gc::run, emit_wasm; decode the output"})
+    for c in idx["cases"]:
+        x = by.get(c["id"])
+        if x is None:
+            continue
+        exh = any("exhaustion" in (q["in"]["r"], q["out"]["r"]) for q in x["calls"]) or "RangeError" in (x["in"]["v"], x["out"]["v"])
+        if not x["same"] and not exh:
+            ov.append({"class": "behaviour-differs", "what": "module %s (gc=%s): instantiation of the input gives `%s`, of walrus's output `%s`; differing calls: %s" % (
+                           c["id"], c.get("gc"), json.dumps(x["in"])[:300], json.dumps(x["out"])[:300], json.dumps([q for q in x["calls"] if not q["same"]])[:400]),
+                       "input": {"module_hex": open(os.path.join(out, c["id"] + ".in.wasm"), "rb").read().hex()},
+                       "replay_cmd": "instantiate the input and walrus's output (import env.gi as the case says), call every export f<k> on fresh instances, compare results, globals, memory, table"})
+        for mode in ("in", "out"):
+            o = x[mode]
+            if o["v"] == "ok":
+                kind = "ok"
+            elif o["v"] == "RuntimeError":
+                kind = "trap: " + re.sub(r"^WebAssembly.Instance\(\): ", "", o["msg"])[:40]
+            else:
+                continue
+            if mode == "in":
+                kinds[kind] = kinds.get(kind, 0) + 1
+                src, gidx, fmap, g0idx, g1idx = c, {g["name"]: g["index"] for g in c["gnames"]}, (lambda k: k), c["g0idx"], c["g1idx"]
+                funcs, datas = c["funcs"], c["datas"]
+            else:
+                src = c.get("decoded_out")
+                if src is None:
+                    continue
+                gidx = {g["name"]: g["index"] for g in src["gexp"]}
+                fx = {g["name"]: g["index"] for g in src["fexp"]}
+                fmap = (lambda k, fx=fx: fx["f%d" % int(k)])
+                g0idx, g1idx = gidx["g0"], gidx["g1"]
+                funcs, datas = src["funcs"], src["datas"]
+            if o["v"] == "ok":
+                gobs = "; ".join("(%d, %s)" % (gidx[nm], v[1:]) for nm, v in o["globals"].items())
+                tbl = "; ".join("None" if k == -1 else "Some %d" % fmap(k) for k in o["table"])
+                calls = []
+                for q in x["calls"]:
+                    call = c["calls"][q["k"]]
+                    qo = q[mode]
+                    e = res(qo)
+                    if e is None:
+                        skipped += 1
+                        continue
+                    ncalls += 1
+                    calls.append("(%s, [%s]%%Z, %s, %s, %s, %s, %s)" % (fmap(call["f"]), "; ".join("(%s)" % a["v"] for a in call["args"]), e, qo["g0"][1:], qo["g1"][1:], qo["memsum"], qo["pages"]))
+                obs = "bc_ok := true; bc_gobs := [%s]; bc_memsum := %s; bc_pages := %s; bc_tbl := [%s]" % (gobs, o["memsum"], o["pages"], tbl)
+            else:
+                calls = []
+                obs = "bc_ok := false; bc_gobs := []; bc_memsum := 0; bc_pages := 0; bc_tbl := []"
+            lines[mode].append("{| bc_tys := %s; bc_funcs := %s; bc_globals := %s; bc_mem := %s; bc_table := %s; bc_elems := %s; bc_datas := %s; bc_start := %s; %s; bc_g0 := %d; bc_g1 := %d; bc_calls := [%s] |}" % (
+                src["tys"], funcs, src["globals"], src["mem"], src["table"], src["elems"], datas, src["start"], obs, g0idx, g1idx, "; ".join(calls)))
+    head = "From Coq Require Import List NArith ZArith String. Import ListNotations.\nFrom WV Require Import Gen.Ops Model.Common Model.IR Model.ParseSpec Model.Inst Run.SemCoreRun Run.InstRun Run.BulkRun.\nOpen Scope N_scope.\nDefinition cases : list bulkcase := [\n"
+    per = 10
+    for mode in ("in", "out"):
+        ls = lines[mode]
+        for k in range(0, len(ls), per):
+            with open(os.path.join(out, "cases_bulk%s_%d.v" % (mode, k // per)), "w") as f:
+                f.write(head + ";\n".join("  " + l for l in ls[k:k + per]) + "\n].\nEval vm_compute in (List.map check_bulk cases).\n")
+    results, errors = core.coq_eval(out, "cases_bulk*_*.v")
+    dis = [{"file": f, "coq_error": m[-400:]} for f, m in errors.items()]
+    names = {81: "instantiation verdict differs from V8", 82: "globals after instantiation differ from V8", 83: "memory after instantiation differs from V8", 84: "memory size differs from V8",
+             85: "table contents differ from V8", 86: "the model went wrong", 87: "call depth or fuel exhausted", 71: "result of a call differs from V8", 72: "globals after a call differ",
+             73: "memory after a call differs", 74: "memory size after a call differs", 75: "the interpreter is stuck / went wrong in a call", 76: "call depth or fuel exhausted in a call"}
+    neval = 0
+    for f, codes in results.items():
+        neval += len(codes)
+        for i, cd in enumerate(codes):
+            if cd != 0:
+                dis.append({"code": cd, "meaning": names.get(cd, "?"), "file": os.path.basename(f), "case_index": i})
+    cov = {"modules_input_side": len(lines["in"]), "modules_decoded_from_walrus_output": len(lines["out"]), "evaluated_in_coq": neval, "verdicts_in_v8": kinds, "calls_compared_with_v8": ncalls,
+           "calls_skipped_stack_exhaustion": skipped, "generator": {k: v for k, v in idx.items() if k != "cases"},
+           "rule": "the modules of the instantiation tie plus 1-4 passive data segments interleaved with the active ones and bodies containing memory.init / data.drop / memory.copy / memory.fill with generated operands (in bounds, at the exact end, one past it, n = 0 at and past the boundary, overlapping copies in both directions, memory.init after data.drop and of active segments); half go through the GC pass (unused passive segments deleted, the others renumbered); V8 vs. Model/SemBulk.v `instantiate_b` / `run_mod_b` on the input AND on walrus's output binary decoded back by the harness"}
+    return dis, ov, cov
+
+
 def correspondence(ctx, thorough, search, prop="C01"):
     out = os.path.join(ctx.work, ("search" if search else "corr") + ("_" + prop if prop != "C01" else ""))
     shutil.rmtree(out, ignore_errors=True)
@@ -287,4 +388,10 @@ def correspondence(ctx, thorough, search, prop="C01"):
         cov["instantiation_vs_coq_model"] = cov4
         cov["evaluations"] += cov4.get("modules", 0) + cov4.get("calls_after_instantiation_compared_with_v8", 0)
         cov["traces_validated_against_impl"] += cov4.get("evaluated_in_coq", 0)
+        dis5, ov5, cov5 = bulk_correspondence(ctx, thorough, search)
+        dis += dis5
+        ov += ov5
+        cov["bulk_memory_vs_coq_model"] = cov5
+        cov["evaluations"] += cov5.get("calls_compared_with_v8", 0)
+        cov["traces_validated_against_impl"] += cov5.get("evaluated_in_coq", 0)
     return {"disagreements": dis, "oracle_violations": ov, "coverage": cov}
